@@ -217,15 +217,41 @@ package badgerstore
 //@   ensures veto: isNil(err) == (bcvn == old(bcvn))
 //@   loop 1 invariant -1 <= rangeindex && rangeindex < len(st.beforeChange) + 0 && bcn == old(bcn) + rangeindex + 1 && bcvn == old(bcvn)
 //@
-//@ # getValue / setValue go through reflect and encoding: used through their contracts (assumed, see DESIGN)
+//@ # getValue / setValue: the bodies are verified. What stays assumed about reflect (it is opaque to the verifier) is one
+//@ # fact: in a store whose type implements the binary marshalling interfaces (useMarshal), the values that pass the type check
+//@ # of Create/Update/Init, and the values reflect.New creates of that type, implement them (pred marshalOK / the callsite
+//@ # contract reflect.InterfaceOfStoreType)
+//@ pred marshalOK(st *Store, v interface{}) = imp(st.useMarshal, implements(v, "encoding.BinaryMarshaler"))
+//@ # rvof / rvt / rvum: the value being type-checked, the store's value type and whether that type marshals itself
+//@ ghostvar rvof iface
+//@ ghostvar rvt iface
+//@ ghostvar rvum bool
+//@ # THE assumed fact about reflect: a value whose reflect type is the store's type implements the marshalling interface
+//@ # that the store's type was found to implement when it was set (SetType)
+//@ trusted func reflect.TypeOfChecked(v reflect.Value) (t reflect.Type)
+//@   ensures imp(same(t, rvt) && rvum, implements(rvof, "encoding.BinaryMarshaler"))
+//@ trusted func reflect.InterfaceOfStoreType(v reflect.Value) (i interface{})
+//@   ensures !isNil(i) && implements(i, "encoding.BinaryUnmarshaler")
+//@ trusted func reflect.InterfaceNonNil(v reflect.Value) (i interface{})
+//@   ensures !isNil(i)
+//@ func Store.getValue$1(dta []byte) (err error)
+//@   requires st != nil
+//@   modifies alloc
+//@   # (call ordinals follow the verifier's traversal: the json branch comes first)
+//@   callsite Value.Interface#2 reflect.InterfaceNonNil
+//@   callsite Value.Interface#3 reflect.InterfaceOfStoreType
+//@   callsite Unmarshal#1 json.UnmarshalFresh
+//@   ensures decoded: imp(isNil(err), !isNil(v))
 //@ func (st *Store) getValue(txn *badger.Txn, key []byte) (v interface{}, err error)
-//@   nobody
+//@   requires st != nil && txn != nil
 //@   modifies alloc
 //@   ensures missing: imp(len(key) > 0 && !kvhas[keyid(bytes(key))], isErr(err, res.ErrNotFound))
 //@   ensures found: imp(isNil(err), kvhas[keyid(bytes(key))] && !isNil(v))
 //@ func (st *Store) setValue(txn *badger.Txn, key []byte, v interface{}) (err error)
-//@   nobody
+//@   requires st != nil && txn != nil && marshalOK(st, v)
 //@   modifies alloc, ghost.kvhas
+//@   # the value is written under exactly the key given, and only after it has been encoded
+//@   ghost call Txn.Set#1 before :: assert under.key: same(arg_key, key)
 //@   ensures ok: imp(isNil(err), len(key) > 0 && kvhas == store(old(kvhas), keyid(old(bytes(key))), true))
 //@   ensures failed: imp(!isNil(err), kvhas == old(kvhas))
 //@   ensures empty: imp(len(key) == 0, !isNil(err))
@@ -233,7 +259,7 @@ package badgerstore
 //@ pred txnOK(wt writeTxn) = wt.st != nil && wt.st.DB != nil && forall(k, 0, len(wt.st.onChange), wt.st.onChange[k] != nil) && forall(k, 0, len(wt.st.beforeChange), wt.st.beforeChange[k] != nil)
 //@     && len(wt.rname) == len(wt.st.prefix) + len(wt.id) && bytes(wt.rname)[0:len(wt.st.prefix)] == wt.st.prefix && bytes(wt.rname)[len(wt.st.prefix):] == wt.id
 //@ func writeTxn.Create$1(txn *badger.Txn) (err error)
-//@   requires txnOK(wt) && txn != nil
+//@   requires txnOK(wt) && txn != nil && marshalOK(wt.st, v)
 //@   modifies ghost.kvhas, ghost.bcn, ghost.bcvn, alloc, bytes
 //@   ensures dup: imp(old(len(wt.rname) > 0 && kvhas[keyid(bytes(wt.rname))]), isErr(err, store.ErrDuplicate))
 //@   ensures veto: imp(bcvn != old(bcvn), !isNil(err))
@@ -243,6 +269,10 @@ package badgerstore
 //@   ensures failed: imp(!isNil(err), kvhas == old(kvhas))
 //@ func (wt writeTxn) Create(v interface{}) (err error)
 //@   requires txnOK(wt)
+//@   ghost call ValueOf#1 before :: set rvof = v
+//@   ghost call ValueOf#1 before :: set rvt = ite(isNil(wt.st.t), interfaceMapType, wt.st.t)
+//@   ghost call ValueOf#1 before :: set rvum = wt.st.useMarshal
+//@   callsite Value.Type#1 reflect.TypeOfChecked
 //@   modifies all
 //@   # (which error wins when the value also has the wrong type is not specified: the transaction body, once reached, returns the duplicate error: Create$1#post.dup)
 //@   ensures dup: imp(old(len(wt.rname) > 0 && kvhas[keyid(bytes(wt.rname))]), !isNil(err) && kvhas == old(kvhas) && chn == old(chn))
@@ -252,7 +282,7 @@ package badgerstore
 //@   ensures failed: imp(!isNil(err), kvhas == old(kvhas) && chn == old(chn))
 //@
 //@ func writeTxn.Update$1(txn *badger.Txn) (err error)
-//@   requires txnOK(wt) && txn != nil && isNil(wt.v)
+//@   requires txnOK(wt) && txn != nil && isNil(wt.v) && marshalOK(wt.st, v)
 //@   modifies all
 //@   ensures missing: imp(old(len(wt.rname) > 0 && !kvhas[keyid(bytes(wt.rname))]), isErr(err, res.ErrNotFound))
 //@   ensures veto: imp(bcvn != old(bcvn), !isNil(err))
@@ -262,6 +292,10 @@ package badgerstore
 //@   ensures wtframe: wt.st == old(wt.st) && same(wt.id, old(wt.id)) && same(wt.rname, old(wt.rname))
 //@ func (wt writeTxn) Update(v interface{}) (err error)
 //@   requires txnOK(wt) && isNil(wt.v)
+//@   ghost call ValueOf#1 before :: set rvof = v
+//@   ghost call ValueOf#1 before :: set rvt = ite(isNil(wt.st.t), interfaceMapType, wt.st.t)
+//@   ghost call ValueOf#1 before :: set rvum = wt.st.useMarshal
+//@   callsite Value.Type#1 reflect.TypeOfChecked
 //@   modifies all
 //@   ensures missing: imp(old(len(wt.rname) > 0 && !kvhas[keyid(bytes(wt.rname))]), !isNil(err) && kvhas == old(kvhas) && chn == old(chn))
 //@   ensures ok: imp(isNil(err), old(kvhas[keyid(bytes(wt.rname))]) && kvhas == store(old(kvhas), keyid(old(bytes(wt.rname))), true) && chn == old(chn) + len(old(wt.st.onChange))
@@ -293,7 +327,10 @@ package badgerstore
 //@   invokes add
 //@   ensures initcbn == old(initcbn) + 1
 //@ func Store.Init$1$1(id string, v interface{})
-//@   modifies map:map[string]interface{}, alloc
+//@   modifies map:map[string]interface{}, alloc, ghost.rvof
+//@   ghost call ValueOf#1 before :: set rvof = v
+//@   callsite Value.Type#1 reflect.TypeOfChecked
+//@   preserves typed: same(rvt, t) && forallint(k, imp(mapHasId(entries, k) && rvum, implements(mapValId(entries, k), "encoding.BinaryMarshaler")))
 //@   preserves nonempty: forallint(k, imp(mapHasId(entries, k), k != keyid("")))
 //@   preserves alive: entries != nil && !isNil(t)
 //@ pred cbsOK(st *Store) = st != nil && forall(k, 0, len(st.onChange), st.onChange[k] != nil) && forall(k, 0, len(st.beforeChange), st.beforeChange[k] != nil)
@@ -303,7 +340,9 @@ package badgerstore
 //@ ghostvar lastseed int
 //@ func Store.Init$1(txn *badger.Txn) (err error)
 //@   requires cbsOK(st) && txn != nil && cb != nil && created != nil
-//@   modifies ghost.kvhas, ghost.initcbn, ghost.nseedw, ghost.lastseed, alloc, bytes, map:map[string]interface{}
+//@   modifies ghost.kvhas, ghost.initcbn, ghost.nseedw, ghost.lastseed, ghost.rvof, ghost.rvt, ghost.rvum, alloc, bytes, map:map[string]interface{}
+//@   ghost entry :: set rvum = st.useMarshal
+//@   ghost call initCB#1 before :: set rvt = t
 //@   ghost call Store.setValue#1 after :: set nseedw = nseedw + ite(isNil(arg_err), 1, 0)
 //@   ghost call Store.setValue#1 after :: set lastseed = ite(isNil(arg_err), keyid(id), 0 - 1)
 //@   ghost call Txn.Get#2 after :: set lastseed = 0 - 1
@@ -320,6 +359,7 @@ package badgerstore
 //@   ensures quiet: chn == old(chn)
 //@   loop 1 invariant bytes(initKey) == "$" + st.prefix + "init"
 //@   loop 1 invariant forallint(k, imp(old(kvhas)[k], kvhas[k])) && initcbn == old(initcbn) + 1 && created != nil
+//@   loop 1 invariant typed: rvum == st.useMarshal && forallint(k, imp(mapHasId(entries, k) && rvum, implements(mapValId(entries, k), "encoding.BinaryMarshaler")))
 //@ func (st *Store) Init(cb func(add func(id string, v interface{})) error) (rerr error)
 //@   requires cbsOK(st) && st.DB != nil && cb != nil
 //@   modifies all
@@ -378,6 +418,36 @@ package badgerstore
 //@   ensures missing: imp(isNil(rt.v) && !kvhas[keyid(bytes(rt.rname))], isErr(err, res.ErrNotFound) && isNil(val))
 //@   ensures found: imp(isNil(rt.v) && isNil(err), kvhas[keyid(bytes(rt.rname))] && !isNil(val))
 //@
+//@ # Query: the index query built by the client's callback, fetched; an error of either is the error of Query (with no result)
+//@ func (qs *QueryStore) Query(q url.Values) (result interface{}, err error)
+//@   requires qs != nil && qs.iq != nil && qs.st != nil && qs.st.DB != nil && itopen == 0
+//@   modifies all
+//@   callback iq iqCB
+//@   ensures failed: imp(!isNil(err), isNil(result))
+//@   ensures ids: imp(isNil(err), typeIs(result, "[]string"))
+//@   ensures closed: itopen == 0
+//@ # AddIndex keeps what every index user relies on: each registered index has a key function (given that the new one has)
+//@ func (qs *QueryStore) AddIndex(idx Index) (r *QueryStore)
+//@   requires qs != nil && idx.Key != nil && forallint(k, imp(mapHasId(qs.idxs, k), mapValId(qs.idxs, k).Key != nil))
+//@   modifies badgerstore.QueryStore.idxs, alloc, map:badgerstore.QueryStore.idxs
+//@   may_panic
+//@   strkeys pairwise
+//@   ensures kept: r == qs && forallint(k, imp(mapHasId(qs.idxs, k), mapValId(qs.idxs, k).Key != nil)) && mapHasId(qs.idxs, keyid(idx.Name))
+//@   ensures_on_panic dup: old(mapHasId(qs.idxs, keyid(idx.Name)))
+//@ # Get: an unlocked read of the value stored under prefix+id (the same lookup as readTxn.Value, in its own read transaction)
+//@ func Store.Get$1(txn *badger.Txn) (err error)
+//@   requires st != nil && txn != nil && len(st.prefix) + len(id) > 0
+//@   modifies alloc, bytes
+//@   strkeys pairwise
+//@   ensures found: imp(isNil(err), kvhas[keyid(st.prefix + id)] && !isNil(v))
+//@   ensures missing: imp(!kvhas[keyid(st.prefix + id)], isErr(err, res.ErrNotFound))
+//@ func (st *Store) Get(id string) (val interface{}, err error)
+//@   requires st != nil && st.DB != nil && len(st.prefix) + len(id) > 0
+//@   modifies alloc, bytes
+//@   strkeys pairwise
+//@   ensures missing: imp(!kvhas[keyid(st.prefix + id)], isErr(err, res.ErrNotFound) && isNil(val))
+//@   ensures found: imp(isNil(err), kvhas[keyid(st.prefix + id)] && !isNil(val))
+//@   ensures failed: imp(!isNil(err), isNil(val))
 //@ # ================================================================ RebuildIndexes: drop every index, rescan the values (C12)
 //@ props C12
 //@ func (st *Store) Type() (t interface{})
